@@ -2,6 +2,7 @@
    parked sequences, and is NOT trivially true (it rejects specific bad traces). *)
 From Coercion.Base Require Import Plan.
 From Coercion.Engine Require Import Shape Event Accept.
+From Coercion.Engine Require Import PlanSM.
 From Coercion.C02 Require Import MonC02.
 
 (* two blocks; block 0: three sequences, Concurrency 2; block 1: one sequence, Concurrency 1 *)
@@ -39,4 +40,174 @@ Example redundant_write_still_counted :
   mon_conc (sh2, [EvWrite (OAct (ASeq 0 0 0)) Running 0 false FRUnknown; EvStart (ASeq 0 0 0);
                   EvWrite (OAct (ASeq 0 0 0)) Running 0 false FRUnknown;
                   EvStart (ASeq 0 1 0); EvStart (ASeq 0 2 0)]) = false.
+Proof. vm_compute. reflexivity. Qed.
+
+(* ---- a trace of the REAL engine (harness case conc-94, VERIF_SEED 7; 91 events): two blocks; block 0 has four
+   sequences and Concurrency 2 (two parked inside their plugins, the others wait), one sequence fails (wrong
+   response type, tolerated), one action is retried; then block 1.  The automaton accepts it, the monitor holds,
+   and the bound is attained (peak 2 = Concurrency). ---- *)
+Definition real_shape : shape :=
+  (Build_shape (Build_groups None None None None None) [(Build_bshape (Build_groups None None None None None) [[1; 0];
+     [1]; [1; 1]; [0]] 2 (-1)%Z); (Build_bshape (Build_groups None None None None None) [[0]] 1 (1)%Z)]).
+
+Definition real_trace : list event :=
+  [(EvWrite OPlan Running 0 false FRUnknown);
+   (EvWrite OPlan Running 0 false FRUnknown);
+   (EvWrite OPlan Running 0 false FRUnknown);
+   (EvWrite (OBlock 0) Running 0 false FRUnknown);
+   (EvWrite (OBlock 0) Running 0 false FRUnknown);
+   (EvWrite (OBlock 0) Running 0 false FRUnknown);
+   (EvWrite (OBlock 0) Running 0 false FRUnknown);
+   (EvWrite (OSeq 0 1) Running 0 false FRUnknown);
+   (EvWrite (OAct (ASeq 0 1 0)) Running 0 false FRUnknown);
+   (EvStart (ASeq 0 1 0));
+   (EvWrite (OSeq 0 0) Running 0 false FRUnknown);
+   (EvWrite (OAct (ASeq 0 0 0)) Running 0 false FRUnknown);
+   (EvStart (ASeq 0 0 0));
+   (EvEnd (ASeq 0 1 0) OWrongType);
+   (EvWrite (OAct (ASeq 0 1 0)) Running 1 false FRUnknown);
+   (EvWrite (OAct (ASeq 0 1 0)) Failed 1 false FRUnknown);
+   (EvWrite (OAct (ASeq 0 1 0)) Failed 1 false FRUnknown);
+   (EvWrite (OSeq 0 1) Failed 0 false FRUnknown);
+   (EvWrite (OSeq 0 2) Running 0 false FRUnknown);
+   (EvEnd (ASeq 0 0 0) OErr);
+   (EvWrite (OAct (ASeq 0 2 0)) Running 0 false FRUnknown);
+   (EvStart (ASeq 0 2 0));
+   (EvWrite (OAct (ASeq 0 0 0)) Running 1 false FRUnknown);
+   (EvStart (ASeq 0 0 0));
+   (EvEnd (ASeq 0 0 0) OOk);
+   (EvWrite (OAct (ASeq 0 0 0)) Running 2 true FRUnknown);
+   (EvWrite (OAct (ASeq 0 0 0)) Completed 2 true FRUnknown);
+   (EvWrite (OAct (ASeq 0 0 0)) Completed 2 true FRUnknown);
+   (EvWrite (OAct (ASeq 0 0 1)) Running 0 false FRUnknown);
+   (EvStart (ASeq 0 0 1));
+   (EvEnd (ASeq 0 0 1) OOk);
+   (EvWrite (OAct (ASeq 0 0 1)) Running 1 true FRUnknown);
+   (EvWrite (OAct (ASeq 0 0 1)) Completed 1 true FRUnknown);
+   (EvWrite (OAct (ASeq 0 0 1)) Completed 1 true FRUnknown);
+   (EvWrite (OSeq 0 0) Completed 0 false FRUnknown);
+   (EvWrite (OSeq 0 3) Running 0 false FRUnknown);
+   (EvWrite (OAct (ASeq 0 3 0)) Running 0 false FRUnknown);
+   (EvStart (ASeq 0 3 0));
+   (EvEnd (ASeq 0 2 0) OOk);
+   (EvWrite (OAct (ASeq 0 2 0)) Running 1 true FRUnknown);
+   (EvWrite (OAct (ASeq 0 2 0)) Completed 1 true FRUnknown);
+   (EvWrite (OAct (ASeq 0 2 0)) Completed 1 true FRUnknown);
+   (EvWrite (OAct (ASeq 0 2 1)) Running 0 false FRUnknown);
+   (EvStart (ASeq 0 2 1));
+   (EvEnd (ASeq 0 2 1) OOk);
+   (EvWrite (OAct (ASeq 0 2 1)) Running 1 true FRUnknown);
+   (EvWrite (OAct (ASeq 0 2 1)) Completed 1 true FRUnknown);
+   (EvWrite (OAct (ASeq 0 2 1)) Completed 1 true FRUnknown);
+   (EvWrite (OSeq 0 2) Completed 0 false FRUnknown);
+   (EvEnd (ASeq 0 3 0) OOk);
+   (EvWrite (OAct (ASeq 0 3 0)) Running 1 true FRUnknown);
+   (EvWrite (OAct (ASeq 0 3 0)) Completed 1 true FRUnknown);
+   (EvWrite (OAct (ASeq 0 3 0)) Completed 1 true FRUnknown);
+   (EvWrite (OSeq 0 3) Completed 0 false FRUnknown);
+   (EvWrite (OBlock 0) Running 0 false FRUnknown);
+   (EvWrite (OBlock 0) Running 0 false FRUnknown);
+   (EvWrite (OBlock 0) Completed 0 false FRUnknown);
+   (EvWrite (OBlock 1) Running 0 false FRUnknown);
+   (EvWrite (OBlock 1) Running 0 false FRUnknown);
+   (EvWrite (OBlock 1) Running 0 false FRUnknown);
+   (EvWrite (OBlock 1) Running 0 false FRUnknown);
+   (EvWrite (OSeq 1 0) Running 0 false FRUnknown);
+   (EvWrite (OAct (ASeq 1 0 0)) Running 0 false FRUnknown);
+   (EvStart (ASeq 1 0 0));
+   (EvEnd (ASeq 1 0 0) OOk);
+   (EvWrite (OAct (ASeq 1 0 0)) Running 1 true FRUnknown);
+   (EvWrite (OAct (ASeq 1 0 0)) Completed 1 true FRUnknown);
+   (EvWrite (OAct (ASeq 1 0 0)) Completed 1 true FRUnknown);
+   (EvWrite (OSeq 1 0) Completed 0 false FRUnknown);
+   (EvWrite (OBlock 1) Running 0 false FRUnknown);
+   (EvWrite (OBlock 1) Running 0 false FRUnknown);
+   (EvWrite (OBlock 1) Completed 0 false FRUnknown);
+   (EvWrite OPlan Running 0 false FRUnknown);
+   (EvWrite OPlan Running 0 false FRUnknown);
+   (EvWrite OPlan Completed 0 false FRUnknown);
+   (EvWrite (OBlock 0) Completed 0 false FRUnknown);
+   (EvWrite (OSeq 0 0) Completed 0 false FRUnknown);
+   (EvWrite (OAct (ASeq 0 0 0)) Completed 2 true FRUnknown);
+   (EvWrite (OAct (ASeq 0 0 1)) Completed 1 true FRUnknown);
+   (EvWrite (OSeq 0 1) Failed 0 false FRUnknown);
+   (EvWrite (OAct (ASeq 0 1 0)) Failed 1 false FRUnknown);
+   (EvWrite (OSeq 0 2) Completed 0 false FRUnknown);
+   (EvWrite (OAct (ASeq 0 2 0)) Completed 1 true FRUnknown);
+   (EvWrite (OAct (ASeq 0 2 1)) Completed 1 true FRUnknown);
+   (EvWrite (OSeq 0 3) Completed 0 false FRUnknown);
+   (EvWrite (OAct (ASeq 0 3 0)) Completed 1 true FRUnknown);
+   (EvWrite (OBlock 1) Completed 0 false FRUnknown);
+   (EvWrite (OSeq 1 0) Completed 0 false FRUnknown);
+   (EvWrite (OAct (ASeq 1 0 0)) Completed 1 true FRUnknown);
+   (EvRelease (IM [(OPlan, (OC Completed 0 false (TF false false true))); ((OBlock 0), (OC Completed 0 false (TF false
+     false true))); ((OSeq 0 0), (OC Completed 0 false (TF false false true))); ((OAct (ASeq 0 0 0)), (OC Completed 2
+     true (TF false false true))); ((OAct (ASeq 0 0 1)), (OC Completed 1 true (TF false false true))); ((OSeq 0 1),
+     (OC Failed 0 false (TF false false true))); ((OAct (ASeq 0 1 0)), (OC Failed 1 false (TF false false true)));
+     ((OSeq 0 2), (OC Completed 0 false (TF false false true))); ((OAct (ASeq 0 2 0)), (OC Completed 1 true (TF false
+     false true))); ((OAct (ASeq 0 2 1)), (OC Completed 1 true (TF false false true))); ((OSeq 0 3), (OC Completed 0
+     false (TF false false true))); ((OAct (ASeq 0 3 0)), (OC Completed 1 true (TF false false true))); ((OBlock 1),
+     (OC Completed 0 false (TF false false true))); ((OSeq 1 0), (OC Completed 0 false (TF false false true))); ((OAct
+     (ASeq 1 0 0)), (OC Completed 1 true (TF false false true)))] FRUnknown));
+   (EvRead (IM [(OPlan, (OC Completed 0 false (TF false false true))); ((OBlock 0), (OC Completed 0 false (TF false false
+     true))); ((OSeq 0 0), (OC Completed 0 false (TF false false true))); ((OAct (ASeq 0 0 0)), (OC Completed 2 true
+     (TF false false true))); ((OAct (ASeq 0 0 1)), (OC Completed 1 true (TF false false true))); ((OSeq 0 1), (OC
+     Failed 0 false (TF false false true))); ((OAct (ASeq 0 1 0)), (OC Failed 1 false (TF false false true))); ((OSeq
+     0 2), (OC Completed 0 false (TF false false true))); ((OAct (ASeq 0 2 0)), (OC Completed 1 true (TF false false
+     true))); ((OAct (ASeq 0 2 1)), (OC Completed 1 true (TF false false true))); ((OSeq 0 3), (OC Completed 0 false
+     (TF false false true))); ((OAct (ASeq 0 3 0)), (OC Completed 1 true (TF false false true))); ((OBlock 1), (OC
+     Completed 0 false (TF false false true))); ((OSeq 1 0), (OC Completed 0 false (TF false false true))); ((OAct
+     (ASeq 1 0 0)), (OC Completed 1 true (TF false false true)))] FRUnknown))].
+
+Example real_accepted : accepts real_shape real_trace = true.
+Proof. vm_compute. reflexivity. Qed.
+Example real_wf : shape_wf real_shape = true.
+Proof. vm_compute. reflexivity. Qed.
+Example real_mon : mon_conc (real_shape, real_trace) = true.
+Proof. vm_compute. reflexivity. Qed.
+Example real_peak : conc_peak (real_shape, real_trace) = [0; 2].
+Proof. vm_compute. reflexivity. Qed.
+
+(* the same trace with a third sequence of block 0 entering its plugin while two are inside (inserted after
+   event 12): monitor false, and the automaton rejects it too *)
+Definition real_mutated_three : list event := firstn 13 real_trace ++ [EvStart (ASeq 0 2 0)] ++ skipn 13 real_trace.
+Example real_mutated_three_mon : mon_conc_diag (real_shape, real_mutated_three) = [1; 13; 0; 3; 2].
+Proof. vm_compute. reflexivity. Qed.
+Example real_mutated_three_rejected : accepts real_shape real_mutated_three = false.
+Proof. vm_compute. reflexivity. Qed.
+
+(* ... and with the sequence of block 1 entering its plugin while sequences of block 0 are inside *)
+Definition real_mutated_overlap : list event := firstn 13 real_trace ++ [EvStart (ASeq 1 0 0)] ++ skipn 13 real_trace.
+Example real_mutated_overlap_mon : mon_conc_diag (real_shape, real_mutated_overlap) = [2; 13; 0; 1].
+Proof. vm_compute. reflexivity. Qed.
+
+(* ---- why "in flight" excludes invocations the engine gave up (pinned interpretation).  Concurrency 1, two
+   sequences.  The engine times out the action of sequence 0 (attempt written as failed while the plugin is
+   inside), ends sequence 0 and starts sequence 1; the plugin of sequence 0 returns late.  The automaton accepts
+   this (it is what the code does: actions.run returns on ctx.Done without waiting for the plugin), so with the
+   strict reading "in flight until EvEnd" the bound would not be a theorem - of the model or of the code. ---- *)
+Definition sh_over : shape := Build_shape no_groups [Build_bshape no_groups [[0]; [0]] 1 (-1)%Z].
+Definition tr_over : list event :=
+  [EvWrite OPlan Running 0 false FRUnknown; EvWrite (OBlock 0) Running 0 false FRUnknown;
+   EvWrite (OSeq 0 0) Running 0 false FRUnknown; EvWrite (OAct (ASeq 0 0 0)) Running 0 false FRUnknown;
+   EvStart (ASeq 0 0 0);
+   EvWrite (OAct (ASeq 0 0 0)) Running 1 false FRUnknown;       (* given up: deadline *)
+   EvWrite (OAct (ASeq 0 0 0)) Failed 1 false FRUnknown; EvWrite (OSeq 0 0) Failed 0 false FRUnknown;
+   EvWrite (OSeq 0 1) Running 0 false FRUnknown; EvWrite (OAct (ASeq 0 1 0)) Running 0 false FRUnknown;
+   EvStart (ASeq 0 1 0);                                        (* two plugins are executing now *)
+   EvEnd (ASeq 0 0 0) OOverrun;                                 (* the late End *)
+   EvEnd (ASeq 0 1 0) OOk; EvWrite (OAct (ASeq 0 1 0)) Running 1 true FRUnknown;
+   EvWrite (OAct (ASeq 0 1 0)) Completed 1 true FRUnknown; EvWrite (OSeq 0 1) Completed 0 false FRUnknown;
+   EvWrite (OBlock 0) Completed 0 false FRUnknown; EvWrite OPlan Completed 0 false FRUnknown].
+Example over_accepted : match run sh_over init tr_over with Some s => s_ph s | None => PStart end = PEnd.
+Proof. vm_compute. reflexivity. Qed.
+Example over_mon : mon_conc (sh_over, tr_over) = true.
+Proof. vm_compute. reflexivity. Qed.
+(* without the give-up write the same two Starts violate the bound *)
+Example over_strict_would_fail : mon_conc (sh_over, [EvStart (ASeq 0 0 0); EvStart (ASeq 0 1 0)]) = false.
+Proof. vm_compute. reflexivity. Qed.
+
+Example real_mutated_three_false : mon_conc (real_shape, real_mutated_three) = false.
+Proof. vm_compute. reflexivity. Qed.
+Example real_mutated_overlap_false : mon_conc (real_shape, real_mutated_overlap) = false.
 Proof. vm_compute. reflexivity. Qed.
